@@ -131,6 +131,8 @@ pub fn grid(rng: &mut Rng, tiny: bool) -> VolCfg {
     // root dir entries must fill whole sectors reasonably: keep multiples of bps/32 where possible
     let per_sec = bps / 32;
     let root_entries = if fat == 32 { 0 } else { ((root_entries + per_sec - 1) / per_sec * per_sec).max(per_sec) };
+    // one volume in six declares a root that ends inside a sector (RootDirSectors rounds up)
+    let root_entries = if fat != 32 && rng.chance(1, 6) { root_entries + *rng.pick(&[1u16, 4, 8, 15]).min(&(per_sec - 1)) + if rng.chance(1, 2) { per_sec * 6 } else { 0 } } else { root_entries };
     // the tiny-root case (16 entries) only exists with 512-byte sectors
     VolCfg {
         fat,
